@@ -362,6 +362,7 @@ int main(int argc, char** argv)
     if (argc >= 6 && !strcmp(argv[1], "trace")) {
         // driver trace <container> <seed> <histories> <len> [history]: results of the real library only
         g_trace = true;
+        setvbuf(stdout, nullptr, _IOLBF, 0); // a crash of the real library must not lose the calls already executed
         if (argc > 6) g_only_history = atoi(argv[6]);
         cosim(strtoull(argv[3], 0, 10), atoi(argv[4]), atoi(argv[5]), argv[2]);
         return 0;
